@@ -318,6 +318,68 @@ func pairSpace(tier string) mck.Space {
 	}}
 }
 
+// sweepSpace: EVERY value of every 8- and 16-bit field of the header and of either record of a two-flow packet
+// (the other octets position-unique): a value that is singled out for special treatment - a "well-known" AS
+// number, port, protocol, mask - shows only when that very value is tried.
+func sweepSpace(tier string) mck.Space {
+	type slot struct {
+		name string
+		off  int // offset in the datagram
+		n    int
+	}
+	var slots []slot
+	for _, f := range hdrFields {
+		if f.n <= 2 && f.name != "Version" && f.name != "Count" {
+			slots = append(slots, slot{"header." + f.name, f.off, f.n})
+		}
+	}
+	for r := 0; r < 2; r++ {
+		for _, f := range recFields {
+			if f.n <= 2 {
+				slots = append(slots, slot{fmt.Sprintf("record%d.%s", r, f.name), 24 + 48*r + f.off, f.n})
+			}
+		}
+	}
+	dims := mck.Radix{uint64(len(slots)), 65536}
+	addr := net.ParseIP("192.0.2.9")
+	base := make([]byte, 24+96)
+	fill(base, 0)
+	base[0], base[1], base[2], base[3] = 0, 5, 0, 2
+	return mck.FuncSpace{N: dims.Size(), F: func(idx uint64, c *mck.Ctx) {
+		d := dims.Digits(idx)
+		sl := slots[d[0]]
+		if sl.n == 1 && d[1] > 255 {
+			c.Skip()
+			return
+		}
+		b := append([]byte{}, base...)
+		if sl.n == 1 {
+			b[sl.off] = byte(d[1])
+		} else {
+			b[sl.off], b[sl.off+1] = byte(d[1]>>8), byte(d[1])
+		}
+		cs := &v5case{ver: 5, count: 2, length: len(b), wire: b, fillName: fmt.Sprintf("%s = %d", sl.name, d[1])}
+		c.SetCase(cs.describe)
+		msg, err := netflow5.NewDecoder(addr, append([]byte{}, b...)).Decode()
+		if msg == nil || err != nil || len(msg.Flows) != 2 {
+			c.Violation("v5:sweep:rejected", fmt.Sprint(err), cs.describe())
+			return
+		}
+		out, jerr := msg.JSONMarshal(new(bytes.Buffer))
+		if jerr != nil {
+			c.Violation("v5:sweep:json-error", jerr.Error(), cs.describe())
+			return
+		}
+		if cls, m := checkJSON(cs, out, addr.String(), 2); cls != "" {
+			c.Violation("v5:sweep:"+cls, m, map[string]interface{}{"case": cs.describe(), "json": string(out)})
+		}
+		c.Nontrivial(mck.Hash64(b))
+		if idx%100003 == 0 {
+			c.Sample(cs.describe)
+		}
+	}}
+}
+
 func main() {
-	mck.Main(map[string]func(string) mck.Space{"v5.rec": recSpace, "v5.pairs": pairSpace})
+	mck.Main(map[string]func(string) mck.Space{"v5.rec": recSpace, "v5.pairs": pairSpace, "v5.sweep": sweepSpace})
 }
